@@ -199,15 +199,15 @@ end
 
 open Csvq.OpExpr Csvq.Clause Csvq.Query Csvq.SubQuery Csvq.Gen.Precedence in
 /-- `c18.nq`: queries with sub-queries as values and as tables (Model/SubQuery.lean, nesting depth ≤ 8): the shape of the
-    skeleton, the shapes of its sub-queries in text order, the printed tokens; or ERR.  The atom codes 8 i + 2 are the
-    sub-query atoms here, so back-quoted identifiers (which the other ops code that way) are not admitted. -/
+    skeleton, the shapes of its sub-queries in text order, the printed tokens; or ERR.  The atom codes 16 i + 2 / 16 i + 10 / 8 i + 6
+    are the sub-query atoms here, so back-quoted identifiers (which the other ops code that way) are not admitted. -/
 def nqx (words : List String) : String :=
   if words.any (fun w => w.front = '`') then "bad-op" else
-  match words.mapM wordToTok with
+  match words.mapM (fun w => if w = "EXISTS" then some (.lit existsLit) else wordToTok w) with
   | none => "bad-op"
   | some ts =>
     match parseNWhole genTable genLv 8 ts with
-    | some q => showNQ q ++ " | " ++ String.intercalate " " ((printN genTable q).map tokToWord)
+    | some q => showNQ q ++ " | " ++ String.intercalate " " ((printN genTable q).map (fun t => if t = .lit existsLit then "EXISTS" else tokToWord t))
     | none => "ERR"
 
 /-! `c18.lbl`: Field.Name() of every item of a select list, as the text the header line shows -/
